@@ -1,5 +1,5 @@
 # C13 - DOM mutation: character-data offsets (tree-link operations: see DESIGN.md)
-CLAIMS = {'chardata': 'DOMTextImpl (real ctor/vtables/casts) -> DOMCharacterDataImpl substringData/insertData/deleteData/replaceData: result = DOM string operation, INDEX_SIZE_ERR iff offset > length, read-only refusal, data unchanged on refusal, memory safe incl. 4096-unit temporaries'}
+CLAIMS = {'chardata_substring': 'DOMTextImpl (real ctor/vtables/casts) -> DOMCharacterDataImpl::substringData for every content, offset and count (64-bit): result = DOM substring with the count clamped, INDEX_SIZE_ERR iff offset > length, data unchanged, memory safe incl. the 4096-unit stack temporary'}
 ASSUMPTIONS = ['document arena, string pool (getPooledString), buffer growth and DOMException message loading cut', 'no Range objects registered on the document']
 OPS = ['substring', 'insert', 'delete', 'replace']
 HARNESSES = [
@@ -7,12 +7,12 @@ HARNESSES = [
       tus=['dom/impl/DOMTextImpl.cpp', 'dom/impl/DOMCharacterDataImpl.cpp', 'dom/impl/DOMNodeImpl.cpp', 'dom/impl/DOMChildNode.cpp', 'dom/impl/DOMStringPool.cpp', 'util/XMLString.cpp'],
       cuts_everywhere=['_ZN11xercesc_4_015DOMDocumentImpl15getPooledStringEPKDs'],
       cuts=['_ZN11xercesc_4_09DOMBuffer14expandCapacityEmb', '_ZN11xercesc_4_020DOMCharacterDataImplC[12]EPNS_11DOMDocumentEPKDs', '_ZN11xercesc_4_020DOMCharacterDataImplD[12]Ev'],
-      defs={'quick': {'N': 2, 'OP': op}, 'thorough': {'N': 4, 'OP': op}}, unwind={'quick': 6, 'thorough': 8}, timeout={'quick': 900, 'thorough': 1700}, mem_gb=14)
- for op in range(4)
+      defs={'quick': {'N': 2, 'OP': op}, 'thorough': {'N': 4, 'OP': op}}, unwind={'quick': 6, 'thorough': 8}, timeout={'quick': 600, 'thorough': 1700}, mem_gb=14, unwind_gentle=True, unwind_cap=24)
+ for op in range(1)    # insert/delete/replace (OP 1..3): the virtual getRanges() call on the raw document object makes CBMC dispatch over every
+                          # address-taken function; no verdict within 600 s, so they are not registered (code kept in the harness)
 ]
 LEVEL_TEXT = ('Bounded model checking of the real DOM character-data code through a real Text node object: for ALL contents, offsets, counts (64-bit) and inserted strings within the bound the result equals the DOM Core '
               'string operation and the specified exceptions are raised with the data left unchanged.')
-LEVEL_NOTE = ('NOT claimed: tree-link mutations (insertBefore/removeChild/replaceChild), attribute maps, import/adopt/rename/normalize, reference-DOM equivalence over histories (see DESIGN.md for what was attempted). '
+LEVEL_NOTE = ('NOT claimed: insertData/deleteData/replaceData (harness exists, no verdict), tree-link mutations (insertBefore/removeChild/replaceChild), attribute maps, import/adopt/rename/normalize, reference-DOM equivalence over histories (see DESIGN.md for what was attempted). '
               'Bounds: N <= 3 units (quick) / 5.')
 
-READY = False
